@@ -103,7 +103,12 @@ func readMD(md string) mdDoc {
 
 var reWS = regexp.MustCompile(`\s+`)
 
-// squash: white-space runs to one space, `\|` back to `|` (for "is this text still there").
+// squash: white-space runs to one space, `\|` back to `|` (for "is this text still there": what a
+// piece of written Markdown says, pipe escapes of table rows undone).
 func squash(s string) string {
 	return strings.TrimSpace(reWS.ReplaceAllString(strings.ReplaceAll(s, `\|`, "|"), " "))
 }
+
+// squashWS: white-space runs to one space and nothing else — for AUTHORED text and for cell texts
+// the table reader has already unescaped: a backslash in front of a pipe is part of such a text.
+func squashWS(s string) string { return strings.TrimSpace(reWS.ReplaceAllString(s, " ")) }
